@@ -13,6 +13,14 @@ CHECKS = {
          'Every string of the C20 spaces is highlighted and the ANSI-stripped result compared with the input byte for byte.',
          'same alphabet and bounds as C20; inputs contain no ESC', '2/C37'),
 }
+CHECKS.update({
+ 'C04': ('E2-enum', 'bounded-exhaustive enumeration of command chains run on the real interpreter against a reference interpreter',
+         'Every chain of up to 4 (quick) / 5 (thorough) commands over 6 command kinds and 5 joiners, plus chains up to 6/8 over a reduced alphabet, is executed in-process and stdout + exit number are compared with a reference interpreter written from the statement.',
+         'command alphabet {out, two failing functions, true, false, err} and joiners {; newline && || |}; consumers piped from a skipped command are not asserted (statement silent); stderr not compared', '2/C04'),
+ 'C05': ('E2-enum', 'bounded-exhaustive enumeration of command chains under try/trypipe/runmode against a reference model',
+         'The C04 chain space wrapped in try, trypipe and runmode try/trypipe functions; stdout and exit number compared with a reference model of the statement.',
+         'same alphabet as C04; consumers piped from a skipped alternative are not asserted (statement silent)', '2/C05'),
+})
 NA_REASON = {}
 
 def main():
